@@ -267,3 +267,7 @@ RULE = ("decoder alone: TLC explores CsrDecoder_MC (every set/order of <=3 align
 
 def main(tier):
     return hwcheck.check("C06", tier, [Decoder(), Tree()], RULE)
+
+
+def replay(path):
+    return hwcheck.replay(path, [Decoder(), Tree()])
